@@ -551,10 +551,12 @@ func cmdCheck(args []string) int {
 		fmt.Printf("ERROR property %s: no obligations generated\n", prop)
 		toolErr = true
 	}
-	if toolErr {
-		fmt.Printf("UNDECIDED property=%s (tool error; see ERROR lines)\n", prop)
-		return 2
-	}
+	// A tool error (a contract that no longer fits the code, a vacuous contract, a solver error)
+	// leaves the property undecided - unless some obligation of a function that was verified is
+	// refuted with a model: that refutation stands on that function's own contract and does not
+	// depend on what could not be checked, so it is reported as the violation it is. Obligations
+	// that merely failed to discharge (unknown, timeout) are not counted in that situation.
+	undecided := toolErr
 	// failed obligations
 	discharged := 0
 	violations := 0
@@ -609,6 +611,9 @@ func cmdCheck(args []string) int {
 		if foreign {
 			continue
 		}
+		if undecided && o.Result != "sat" {
+			continue
+		}
 		violations++
 		os.MkdirAll(replayDir+"/"+prop, 0o755)
 		rp := fmt.Sprintf("%s/%s/%s.json", replayDir, prop, sanitize(full))
@@ -625,6 +630,13 @@ func cmdCheck(args []string) int {
 		fmt.Printf("VIOLATION property=%s replay=%s%s\n", prop, rp, suffix)
 		fmt.Printf("  obligation %s (%s) at %s: %s\n", full, o.Result, o.Pos, o.Clause)
 		failedSamples = append(failedSamples, map[string]interface{}{"obligation": full, "clause": o.Clause, "result": o.Result, "at": o.Pos})
+	}
+	if undecided && violations == 0 {
+		fmt.Printf("UNDECIDED property=%s (tool error; see ERROR lines)\n", prop)
+		return 2
+	}
+	if undecided {
+		fmt.Printf("note: property %s: the ERROR lines above leave part of the function set unchecked; the violations reported are refuted obligations of functions that were checked\n", prop)
 	}
 	var asm []string
 	for k, n := range assumptions {
